@@ -3,7 +3,8 @@ import errno, hashlib, json, os, shutil, socket, stat, subprocess, time
 from . import core, fsutil
 
 ERRNO = {n: getattr(errno, n) for n in ('EIO', 'ENOSPC', 'EACCES', 'EMFILE', 'EROFS', 'EEXIST', 'EPERM', 'ENOSYS', 'EXDEV',
-                                         'EOPNOTSUPP', 'EINVAL', 'ETXTBSY', 'EINTR', 'ENOENT', 'ENOTDIR', 'EISDIR', 'EBADF', 'EFBIG', 'ENOMEM')}
+                                         'EOPNOTSUPP', 'EINVAL', 'ETXTBSY', 'EINTR', 'ENOENT', 'ENOTDIR', 'EISDIR', 'EBADF', 'EFBIG', 'ENOMEM', 'ENAMETOOLONG', 'ELOOP', 'ENXIO',
+                                         'EAGAIN', 'EBUSY', 'EDQUOT', 'ENOTSUP')}
 
 
 def data_bytes(data):
